@@ -487,6 +487,10 @@ theorem inv_updatePolicyWN (e : Enf) (sec pt : String) (old new : Rule) (hi : In
   have hnew := wf06_update hwf6
   unfold Enf.updatePolicyWN
   split
+  · exact hi
+  split
+  · exact hi
+  split
   rename_i e1 okA hp
   have sc := sameCore_persist hp
   split
@@ -543,6 +547,10 @@ theorem inv_updatePoliciesWN (e : Enf) (sec pt : String) (olds news : List Rule)
   have hpn : ∀ r ∈ news, plainRule n r = true := fun r hr => hpl r (by simp [StoreOp.rules, hr])
   obtain ⟨hlen, hod, hnd, hnew⟩ := wf06_updateMany hwf6
   unfold Enf.updatePoliciesWN
+  split
+  · exact hi
+  split
+  · exact hi
   split
   · exact hi
   split
